@@ -208,6 +208,22 @@ def w_cli(ctx, wid, seed, only=None):
     fixed = [b'\x01', b'\x7f', b'\x81', b'\xff', b'\x00', b'\x80', b'\x01\x00', b'\x00\x80', b'\xff\x00', b'\xff\x80', b'\x80\x00', b'\x00\x01', b'\xff\xff\xff\x7f', b'\xff\xff\xff\xff',
              b'\x00\x00\x00\x80', b'\x01\x00\x00\x00', b'\x00\x00\x00\x80\x00', b'\x01\x02\x03\x04\x05', b'\x00\x00\x00\x00\x00']
     more = [bytes(rnd.randrange(256) for _ in range(rnd.choice([1, 2, 3, 4, 4, 5]))) for _ in range(12)] + [R.num_enc(rnd.randrange(-2 ** 31 + 1, 2 ** 31)) + bytes([rnd.choice([0, 0x80])]) for _ in range(6)]
+    if not only:
+        # integer literals inside a script are pushed by the ENGINE (OP_1NEGATE, OP_1..OP_16 for the small ones): what lands on the stack is the codec's encoding
+        for n in list(range(-3, 19)) + [-16, -17, 127, 128, -128, 255, 256, 32767, -32768]:
+            for script_, want_n in (('[%d]' % n, n), ('[%d OP_1ADD]' % n, n + 1), ('[%d OP_NEGATE]' % n, -n)):
+                case = dict(kind='cli', bytes='', literal=script_)
+                ctx.case('cli-lit:%s' % script_, True, case, 'cli-literal')
+                r = cli.run(exe, [script_], stdin_tty=True, timeout=20)
+                if r.timed_out:
+                    ctx.inconclusive += 1
+                    continue
+                out = [l for l in r.out.decode(errors='replace').split('\n')]
+                got = out[0].strip() if out else None
+                want = R.num_enc(want_n).hex()
+                if r.abnormal or r.rc != 0 or got != want:
+                    ctx.violations.append(dict(campaign='cli', why='the script %s leaves %r on the stack (rc=%s), the encoding of %d is %r' % (script_, got, r.rc, want_n, want), case=case, observed=[r.rc, got], expected=want, refails=3))
+                    return
     for b in (only or fixed + more):
         for minimal in (True, False):
             case = dict(kind='cli', bytes=b.hex(), minimaldata=minimal)
@@ -288,7 +304,7 @@ def replay(rec):
         return s.get('enc') == enc_hex(n), 'int %d: tree encodes %r, reference %s' % (n, s.get('enc'), enc_hex(n))
     if c['kind'] == 'cli':
         ctx = core.Ctx(PID)
-        w_cli(ctx, 0, 0, only=[bytes.fromhex(c['bytes'])])
+        w_cli(ctx, 0, 0, only=[bytes.fromhex(c['bytes'])] if c.get('bytes') else None)
         return (not ctx.violations), str(ctx.violations[:1])
     if c['kind'] == 'l':
         case = tuple(['l'] + list(c['value']))
